@@ -185,6 +185,9 @@ type c13Case struct {
 	ListB [][]byte `json:"listB,omitempty"`
 	// unsupported
 	AllowNested bool `json:"allowNested,omitempty"`
+	// base: Fields = createdAt, updatedAt (times), tags (flat map, V then V2 on update)
+	Migrate bool `json:"migrate,omitempty"`
+	System  bool `json:"system,omitempty"`
 }
 
 // ---- generators ----
@@ -297,7 +300,30 @@ func genContainer(t *rapid.T, l string, depth int) TV {
 }
 
 func genC13(t *rapid.T) c13Case {
-	switch rapid.IntRange(0, 9).Draw(t, "kind") {
+	switch rapid.IntRange(0, 10).Draw(t, "kind") {
+	case 10:
+		// the base values every extended entity carries: creation and update stamps, tags, the system flag
+		c := c13Case{Kind: "base", Migrate: rapid.IntRange(0, 2).Draw(t, "migrate") > 0, System: rapid.Bool().Draw(t, "system")}
+		flat := func(l string) TV {
+			v := TV{K: "map"}
+			seen := map[string]bool{}
+			for i, n := 0, rapid.IntRange(0, 3).Draw(t, l+"_n"); i < n; i++ {
+				k := genKey(t, fmt.Sprintf("%s_k%d", l, i))
+				if seen[string(k)] {
+					continue
+				}
+				seen[string(k)] = true
+				v.M = append(v.M, KV{Key: k, V: genScalar(t, fmt.Sprintf("%s_v%d", l, i), []string{"s", "i32", "i64", "f64", "b", "nil"})})
+			}
+			return v
+		}
+		created := genScalar(t, "created", []string{"t"})
+		updated := created
+		if rapid.IntRange(0, 3).Draw(t, "sameStamp") > 0 {
+			updated = genScalar(t, "updated", []string{"t"})
+		}
+		c.Fields = []c13Field{{Name: boltz.FieldCreatedAt, V: created}, {Name: boltz.FieldUpdatedAt, V: updated}, {Name: boltz.FieldTags, V: flat("tags"), V2: flat("tags2")}}
+		return c
 	case 0, 1, 2, 3:
 		c := c13Case{Kind: "values"}
 		n := rapid.IntRange(1, 6).Draw(t, "nFields")
@@ -785,6 +811,78 @@ func runC13(c c13Case) kit.Result {
 			}
 			return nil
 		})
+	case "base":
+		res.Classes = append(res.Classes, fmt.Sprintf("migrate:%v", c.Migrate))
+		created, updated, tags, tags2 := c.Fields[0].V, c.Fields[1].V, c.Fields[2].V, c.Fields[2].V2
+		res.NonTrivial = c.Migrate && !created.time().Equal(updated.time())
+		ent := &boltz.BaseExtEntity{Id: "e", CreatedAt: created.time(), UpdatedAt: updated.time(), Tags: tags.goValue().(map[string]interface{}), IsSystem: c.System, Migrate: c.Migrate}
+		check := func(when string, b *boltz.TypedBucket, wantTags TV, updatedKept bool) string {
+			got := &boltz.BaseExtEntity{}
+			got.LoadBaseValues(b)
+			if b.HasError() {
+				return fmt.Sprintf("%s: LoadBaseValues: %v", when, b.GetError())
+			}
+			if c.Migrate {
+				if !got.CreatedAt.Equal(created.time()) {
+					return fmt.Sprintf("%s: migrated entity: createdAt written %v, read %v", when, created.time(), got.CreatedAt)
+				}
+				if updatedKept && !got.UpdatedAt.Equal(updated.time()) {
+					return fmt.Sprintf("%s: migrated entity: updatedAt written %v, read %v", when, updated.time(), got.UpdatedAt)
+				}
+			} else if updatedKept && !got.CreatedAt.Equal(got.UpdatedAt) {
+				return fmt.Sprintf("%s: created entity: createdAt %v and updatedAt %v differ", when, got.CreatedAt, got.UpdatedAt)
+			}
+			if got.IsSystem != c.System {
+				return fmt.Sprintf("%s: system flag written %v, read %v", when, c.System, got.IsSystem)
+			}
+			if d := sameRead(wantTags, got.Tags); d != "" && !(len(wantTags.M) == 0 && len(got.Tags) == 0) {
+				return fmt.Sprintf("%s: tags: %s", when, d)
+			}
+			return ""
+		}
+		var diff string
+		var createdRead time.Time
+		err := db.DB.Update(func(tx *bbolt.Tx) error {
+			b := boltz.GetOrCreatePath(tx, "root", "ent")
+			ent.SetBaseValues(&boltz.PersistContext{Bucket: b, IsCreate: true})
+			if b.HasError() {
+				return b.GetError()
+			}
+			diff = check("inside the creating transaction", b, tags, true)
+			return nil
+		})
+		if err == nil && diff == "" {
+			_ = db.DB.View(func(tx *bbolt.Tx) error {
+				b := boltz.Path(tx, "root", "ent")
+				diff = check("after the creating transaction", b, tags, true)
+				createdRead = b.GetTimeOrError(boltz.FieldCreatedAt)
+				return nil
+			})
+		}
+		if err == nil && diff == "" {
+			// an update replaces the tags and leaves the creation stamp alone
+			ent.Tags = tags2.goValue().(map[string]interface{})
+			err = db.DB.Update(func(tx *bbolt.Tx) error {
+				b := boltz.GetOrCreatePath(tx, "root", "ent")
+				ent.SetBaseValues(&boltz.PersistContext{Bucket: b, IsCreate: false})
+				return b.GetError()
+			})
+			if err == nil {
+				_ = db.DB.View(func(tx *bbolt.Tx) error {
+					b := boltz.Path(tx, "root", "ent")
+					diff = check("after an update", b, tags2, false)
+					if after := b.GetTimeOrError(boltz.FieldCreatedAt); diff == "" && !after.Equal(createdRead) {
+						diff = fmt.Sprintf("after an update: createdAt changed from %v to %v", createdRead, after)
+					}
+					return nil
+				})
+			}
+		}
+		if err != nil {
+			res.Err = fmt.Errorf("writing base values failed: %v", err)
+		} else if diff != "" {
+			res.Err = fmt.Errorf("base values (migrate=%v): %s", c.Migrate, diff)
+		}
 	case "unsupported":
 		var werr error
 		perr := func() (p interface{}) {
